@@ -694,3 +694,90 @@ def minimise(src, still_fails, budget=60):
                 break
             n = min(len(cur), n * 2)
     return cur
+
+
+# ------------------------------------------------------------------ XFront.front as the reader of X text (C01/C08 tie)
+# The programs of C01/C08 reach the spec interpreter as a machine-format AST (.sx) printed by Python (xcommon.to_sx) while
+# the real xcmp gets the pretty-printed text.  Here the text goes through the extracted Coq model of the REAL lexer+parser
+# (XFront.front, tied to xcmp's parser on every C09 run) and the resulting XAst.program, printed in the same .sx format by
+# ocaml/xfrontdrv.ml, must be the program the generator / tools/xparse.py handed to the spec.
+
+_SX_TOK = re.compile(r'[()]|[^\s()]+')
+
+
+def sx_tokens(text):
+    return _SX_TOK.findall(text)
+
+
+def sx_first_difference(a, b):
+    """None when the two .sx texts are the same program (whitespace ignored), else a short description of the first difference"""
+    ta, tb = sx_tokens(a), sx_tokens(b)
+    if ta == tb:
+        return None
+    k = next((i for i, (x, y) in enumerate(zip(ta, tb)) if x != y), min(len(ta), len(tb)))
+    return 'token %d: XFront [%s] vs Python [%s]' % (k, ' '.join(ta[max(0, k - 6):k + 6]), ' '.join(tb[max(0, k - 6):k + 6]))
+
+
+def front_sx(hv, x_text, workdir=None):
+    """.sx text of XFront.front(x_text) (str), or None when the model rejects the text / fails; the reason is in front_sx.last"""
+    import tempfile
+    d = workdir or tempfile.mkdtemp(prefix='xfrontsx-')
+    p = os.path.join(d, 'reader_in.x')
+    try:
+        with open(p, 'wb') as f:
+            f.write(x_text if isinstance(x_text, bytes) else x_text.encode('latin1'))
+        rc, out, err = run3(vlib.big_stack([hv, 'xfront2sx', p]), cwd=d, timeout=300)
+    finally:
+        try:
+            os.remove(p)
+            if workdir is None:
+                os.rmdir(d)
+        except OSError:
+            pass
+    text = out.decode('latin1')
+    if rc != 0 or not text.startswith('(program'):
+        front_sx.last = (text.strip() or err.decode('latin1').strip() or 'rc=%d' % rc)[:300]
+        return None
+    front_sx.last = ''
+    return text
+
+
+front_sx.last = ''
+
+
+def reader_sampled(arg):
+    """C01/C08 job -> is it in the cross-check sample?  all corpus/directed/shipped sources; every 5th generated program in quick, all in thorough"""
+    if arg[0] != 'gen':
+        return True
+    thorough = os.environ.get('VERIF_TIER') == 'thorough' or ('--tier' in sys.argv and sys.argv[sys.argv.index('--tier') + 1:][:1] == ['thorough'])
+    return thorough or arg[1] % 5 == 0
+
+
+def reader_crosscheck(hv, x_text, python_sx, workdir=None):
+    """-> ('same', '') | ('differs', first difference) | ('rejected', diagnostic)"""
+    fs = front_sx(hv, x_text, workdir)
+    if fs is None:
+        return 'rejected', front_sx.last
+    d = sx_first_difference(fs, python_sx)
+    return ('same', '') if d is None else ('differs', d)
+
+
+def reader_report(ck, results):
+    """collect the per-program cross-check results of the jobs into the evidence; a disagreement is a broken tie"""
+    n = same = 0
+    bad = []
+    for r in results:
+        x = r.get('xfront')
+        if not x:
+            continue
+        n += 1
+        if x[0] == 'same':
+            same += 1
+        else:
+            bad.append((r.get('name'), x, (r.get('src') or '')[:400]))
+    ck.cov['xfront_reader_crosscheck'] = {'compared': n, 'matching': same, 'differing': len(bad),
+                                          'what': '.sx of extracted XFront.front(program text) == .sx the generator / tools/xparse.py gave to XSem (whitespace ignored); '
+                                                  'sample: every corpus, directed and shipped program, every 5th generated one in quick, all in thorough'}
+    for name, x, src in bad[:3]:
+        ck.broken.append('X reader: XFront.front and the Python printer/parser disagree on %s: %s %s; source: %r' % (name, x[0], x[1], src))
+    return n, same
